@@ -58,6 +58,12 @@ pub fn run(out: &mut Out, seed: u64, tier: &str) {
             (vec!["opt.xyz", "-f", "MMFF94"], "opt.xyz"),
             (vec!["missing.xyz"], "in.xyz"), (vec![], "in.xyz"), (vec!["in.xyz", "extra.xyz"], "in.xyz"), (vec!["in.xyz", "-f"], "in.xyz"),
         ];
+        // file names the changed source lines mention (used as they are if they end in .xyz, else with .xyz appended), in the working
+        // directory and in a subdirectory
+        let hinted_names: Vec<String> = hints().strs.iter().filter(|s| !s.contains(' ') && !s.contains("..") && !s.starts_with('/') && s.len() <= 30)
+            .flat_map(|s| { let f = if s.ends_with(".xyz") { s.clone() } else { format!("{}.xyz", s.trim_matches('.')) }; vec![f.clone(), format!("./{}", f), format!("sub/{}", f)] }).collect();
+        let mut variants = variants;
+        for hn in hinted_names.iter() { variants.push((vec![hn.as_str()], hn.as_str())); variants.push((vec![hn.as_str(), "-f", "RB"], hn.as_str())); }
         for (vi, (args, fname)) in variants.iter().enumerate() {
             if tier != "thorough" && k > 1 && vi % 3 != (k % 3) { continue; }
             let dir = format!("/var/tmp/optrs-verif-scratch/c15-{}-{}-{}", std::process::id(), k, vi);
@@ -67,6 +73,7 @@ pub fn run(out: &mut Out, seed: u64, tier: &str) {
             let file_bytes: Vec<u8> = if latin1 { let mut b = text.clone().into_bytes(); let mut seen = 0; for v in b.iter_mut() { if *v == b'@' { *v = if seen == 0 { 0xC5 } else { 0xE9 }; seen += 1; } } b } else { text.clone().into_bytes() };
             std::fs::write(format!("{}/{}", dir, fname), &file_bytes).unwrap();
             let input_is_output = *fname == "opt.xyz" || *fname == "./opt.xyz";
+            if std::path::Path::new(&format!("{}/{}", dir, fname)).parent().map(|p| p.is_file()).unwrap_or(false) { continue; }
             let pre_existing = vi % 2 == 0 && !input_is_output;
             let sentinel: Vec<u8> = if input_is_output { let mut b = text.clone().into_bytes(); if latin1 { let mut seen = 0; for v in b.iter_mut() { if *v == b'@' { *v = if seen == 0 { 0xC5 } else { 0xE9 }; seen += 1; } } } b } else { sentinel.clone() };
             if pre_existing { std::fs::write(format!("{}/opt.xyz", dir), &sentinel).unwrap(); }
